@@ -37,10 +37,11 @@ fn replay_case(idx: usize, case: &Value) -> Value {
             }
         }
         if let Some(v) = case["value2"].as_str() {
+            let n2 = case["name2"].as_str().unwrap_or("q").to_string();
             if v.starts_with("key_") {
-                scope_params.insert("q".to_string(), params::key_of(v));
+                scope_params.insert(n2, params::key_of(v));
             } else {
-                params.insert("q".to_string(), params::value(v).0);
+                params.insert(n2, params::value(v).0);
             }
         }
         let e = |e: biscuit_auth::error::Token| format!("{e:?}");
